@@ -70,7 +70,7 @@ Verdict(ev) ==
       [] ev.op = "mpk" -> "ok"
       [] ev.op = "keygen" -> KeyGenV(g, ev.pol)
       [] ev.op = "refresh" -> IF ev.u \in DOMAIN g.usk THEN RefreshV(g, ev.u) ELSE "any"
-      [] ev.op = "encaps" -> IF ev.mpk \in DOMAIN g.mpks THEN EncapsV(g, ev.mpk, ev.pol) ELSE "any"
+      [] ev.op \in {"encaps", "header"} -> IF ev.mpk \in DOMAIN g.mpks THEN EncapsV(g, ev.mpk, ev.pol) ELSE "any"
       [] ev.op = "recaps" -> IF ev.mpk \in DOMAIN g.mpks /\ ev.from \in DOMAIN g.enc
                              THEN RecapsV(g, ev.mpk, ev.from) ELSE "any"
       [] OTHER -> "ok"
@@ -101,7 +101,7 @@ Apply(ev) ==
 Followable(ev, v) ==
     /\ v # "err"
     /\ ev.op \in {"refresh", "clone_usk"} => Get(ev, IF ev.op = "refresh" THEN "u" ELSE "from", "") \in DOMAIN g.usk
-    /\ ev.op \in {"encaps", "recaps"} => ev.mpk \in DOMAIN g.mpks
+    /\ ev.op \in {"encaps", "recaps", "header"} => ev.mpk \in DOMAIN g.mpks
     /\ ev.op = "recaps" => ev.from \in DOMAIN g.enc
     /\ ev.op = "restore_msk" => ev.slot \in DOMAIN g.saved
     /\ ev.op \in {"rekey", "prune", "keygen"} => (UserPolWellFormed(ev.pol) /\ UserPolV(g, ev.pol))
@@ -182,7 +182,7 @@ ContractViol(ev, v) ==
         bad == res \in {"panic", "hang"}
         mism == (v = "ok" /\ res # "ok") \/ (v = "err" /\ res = "ok")
         disabledTarget ==
-            /\ ev.op = "encaps" /\ ev.mpk \in DOMAIN g.mpks
+            /\ ev.op \in {"encaps", "header"} /\ ev.mpk \in DOMAIN g.mpks
             /\ LET m == g.mpks[ev.mpk]
                IN /\ EncPolValid(m.st, m.attrs, ev.pol)
                   /\ \E i \in 1..Len(ev.pol) :
@@ -217,6 +217,16 @@ RoundTripViol(ev) ==
          ELSE IF ~(ev.rt.len_ok /\ ev.rt.write_ok /\ ev.rt.eq_ok /\ ev.rt.relen_ok)
               THEN {Vio({"C13"}, "round trip not faithful", "none", <<ev.obj, ev.rt>>)}
               ELSE {}
+    ELSE {}
+
+\* encrypted headers: serialization (C13) and agreement of header decryption with decapsulation (C12)
+HeaderViol(ev) ==
+    IF ev.op = "header" /\ ev.res = "ok" /\ Has(ev, "hdr")
+    THEN (IF ~ev.hdr.rt_ok THEN {Vio({"C13"}, "encrypted / cleartext header round trip not faithful", "none", <<ev.hdr>>)} ELSE {})
+         \cup
+         (IF ~ev.hdr.consistent
+          THEN {Vio({"C12"}, "header decryption disagrees with decapsulation, or returns another secret / other metadata", "none", <<ev.hdr>>)}
+          ELSE {})
     ELSE {}
 
 \* C16 freshness of every value created by a call
@@ -366,7 +376,7 @@ StatStep(g2, ev, v) ==
                  [] ev.op = "encaps" /\ ev.res = "ok" -> "encaps"
                  [] ev.op = "encaps" /\ ev.res = "err" /\ v = "err" -> "disabled_encaps"
                  [] ev.op = "recaps" /\ ev.res = "ok" -> "recaps"
-                 [] ev.op = "roundtrip" /\ ev.res = "ok" -> "roundtrips"
+                 [] ev.op \in {"roundtrip", "header"} /\ ev.res = "ok" -> "roundtrips"
                  [] ev.op \in {"add_dim", "del_dim", "add_attr", "del_attr", "rename", "disable"} /\ ev.res = "ok" -> "edits"
                  [] OTHER -> "events"
     IN IF key = "events" THEN s1 ELSE Bump(s1, key, 1)
@@ -395,7 +405,7 @@ Call(ev) ==
         g2 == IF follow THEN Apply(ev) ELSE g
         g3 == g2
         m == ViewMsk(ev)
-        newviol == ContractViol(ev, v) \cup RoundTripViol(ev) \cup FreshViol(ev) \cup DriftViol(ev)
+        newviol == ContractViol(ev, v) \cup RoundTripViol(ev) \cup FreshViol(ev) \cup DriftViol(ev) \cup HeaderViol(ev)
                    \cup (IF lostSync THEN {} ELSE
                            OpensViol(g3, ev) \cup RecapsViol(g3, ev) \cup FlavourViol(g3, ev)
                            \cup HeldViol(ev) \cup IdViol(ev))
